@@ -8,7 +8,9 @@ def register(claim, na):
           "Exhaustive over the finite domain: every ProjectType variant is classified by exactly one of is_vcs/is_soft "
           "(compiler pattern semantics, no execution); every marker row of types() is cross-checked against origins() and the "
           "variant docs; provenance of every inserted path is the argument or a parent() of it, and the ancestor loop only "
-          "ends on parent()==None. This is the whole finite-table content of the property; what the filesystem returns is not decided.",
+          "ends on parent()==None and moves up on every round; check_list is `any marker present`; a listing is keyed by the entries' own names and read from "
+          "exactly the given path, lookups use the marker as written with absent => false; the CLI asks for the types of the project origin. This is the "
+          "finite-table content of the property; what the filesystem returns is not decided, nor are the markers that only origins() lists (single-source table).",
           "trusts rustc's THIR/MIR, FileType::is_file/is_dir, Path::parent, HashMap/HashSet; directory listing behaviour is not modelled",
           "DESIGN.md section 5 C20")
     claim("C19", "proof", "cross-table agreement of THIR match tables (to_nix / from_nix / From<i32> / Display / Windows names) with nix's compiled discriminants; MIR def-use for the parsers",
@@ -22,7 +24,7 @@ def register(claim, na):
           "Exhaustive over every Tag shape (each tag kind, each of the 41 file-event kinds via its derived-Debug rendering, each exit "
           "disposition with symbolic payloads, each first-class signal and Custom): decode(encode(t)) == t is established by evaluating "
           "only patterns and constructors of the two From impls; decoder arms are kind-consistent, the fall-through is Tag::Unknown, and "
-          "every NonZero::new_unchecked is guarded. serde/serde_json themselves are trusted, so this is the conversion-layer theorem, not an "
+          "every NonZero::new_unchecked is guarded, and the derived readers of the mirror structs ignore unknown fields. serde/serde_json themselves are trusted, so this is the conversion-layer theorem, not an "
           "observation of serialised bytes.",
           "trusts serde derive + serde_json for the Serde* mirror types, derived Debug output format, the NonZero invariant; payloads (paths, pids, metadata) are opaque values that the conversions only move",
           "DESIGN.md section 5 C16")
@@ -47,7 +49,8 @@ def register(claim, na):
     claim("C06", "other", JT + "; coupling invariant (restart marker <=> restart timer) over handler paths x entry states; timer arithmetic summaries",
           "Decides: signal before arming, no kill in graceful arms, until = now + grace and is_past = until <= now, normal queue read only without a "
           "timer, forced control only after expiry and with the timer cleared, and the invariant that makes the replacement start exactly once. "
-          "Wall-clock behaviour (timer accuracy, signal delivery) is not decided.",
+          "The signal delivered is the one requested (to_nix table), and the CLI's --stop-timeout (unit-less = seconds) and --stop-signal are what its "
+          "graceful restart and quit pass on. Wall-clock behaviour (timer accuracy, signal delivery) is not decided.",
           "trusts tokio sleep_until/Instant, nix signal delivery; admissible entry states of handlers are justified by R06.3 + the API priority table",
           "DESIGN.md section 5 C06, Appendix A")
     claim("C07", "other", JT + "; flag-token discipline (raised or handed to a holder on every path), wake protocol of Flag, multi-waiter lint",
@@ -121,7 +124,9 @@ def register(claim, na):
     claim("C18", "other", "THIR path enumeration of Command::to_spawnable (call order and argument provenance per Program arm), pattern-semantics table of wrappers, hook discipline on all spawn sites, THIR shape of the CLI's command interpretation",
           "Decides: exec = Command::new(prog).args(args) with the fields themselves; shell = shell, options, optional program option, command, extra "
           "args in that order on both paths; wrappers per SpawnOptions by pattern semantics; the builder passed to the hook is the one spawned at all "
-          "spawn sites; the CLI splits/joins the words as documented. Byte-for-byte hand-over is tokio/OS behaviour and not decided.",
+          "spawn sites (never a rebuilt one) and an async hook is awaited to completion; the CLI splits/joins the words as documented without touching "
+          "them, restores `@` on words after `--`, derives group/session from --wrap-process alone, and Shell::new takes the shell path as given. "
+          "Byte-for-byte hand-over is tokio/OS behaviour and not decided.",
           "trusts tokio::process::Command::{new,arg,args}, process-wrap wrappers, std OsString handling", "DESIGN.md section 5 C18")
     claim("C11", "other", "THIR path enumeration of GlobsetFilterer::check_event and of its per-path closure (decision order and verdict per outcome), wiring rules on GlobsetFilterer::new, pattern-semantics table for the CLI's fs-event kinds",
           "Decides the decision structure: whitelist first (equality scan) => pass; ignore files => reject; no paths => pass; otherwise `any` over paths "
@@ -140,7 +145,10 @@ def register(claim, na):
     claim("C12", "other", "THIR path enumeration of WatchexecFilterer::new and dirs::ignores over all branch values of the discovery flags (path-level, so all 64 combinations at once); ordering rule 'explicit entries appended after every flag-guarded filter'",
           "Decides on every path: the explicit options are consumed whatever the flags are, --ignore-file entries are loaded either through "
           "explicit_ignore_files() or at the end of dirs::ignores() after all flag-guarded filters, each flag guards exactly its source, --ignore-nothing "
-          "sets all five flags, and the CLI filter cannot pass an event before the --fs-events stage. What patterns match is not decided.",
+          "sets all five flags and nothing else in normalise() writes one, each filter of dirs::ignores applies its own predicate exactly when its flag is "
+          "given (all flag / state combinations enumerated), explicit lists keep their order, the from_origin / from_environment tags the flags act on are "
+          "the documented ones, the filterer built from the arguments is the one installed, and the CLI filter cannot pass an event before the --fs-events "
+          "stage. What patterns match is not decided.",
           "trusts clap's parsing of the options and the ignore/globset matchers", "DESIGN.md section 5 C12")
     claim("C14", "other", "THIR path enumeration of visit_path (gates for Find and an exact outcome table per directory entry), of from_origin's Find arm (found => filter updated before the next lookup), guard analysis of find_file, cross-crate marker-directory table, crate-wide lint against string-prefix tests on rendered paths",
           "Decides: files are recorded only for regular non-empty files; a directory is searched only past the skip list, check_dir and the two-way watch "
